@@ -409,3 +409,46 @@ def rx_family(rng, quick):
                 elif ok_stage:
                     stats['stage_rows_equal'] += len(lines)
     return len(mcases), nontrivial, failures, stats
+
+
+# ------------------------------------------------------------------------- durations as text
+def dur_family(rng, quick):
+    """chrono's two texts of a duration (DurFmt.v): the JSON text (Display of TimeDelta) and the text the string functions
+    see (derived Debug), on durations built by arithmetic `1ms * m + 1ns * n`; the clause itself: the JSON text, read
+    back independently, is the duration that went in"""
+    pairs = [(0, 0), (0, 1), (0, -1), (1500, 0), (-1500, 0), (5400000, 0), (86400000, 1), (1, 999999), (-1, -999999),
+             (9223372036854775, 0), (-9223372036854775, 0), (0, 500000000), (999, 999999), (1000, 0), (0, 1000), (0, 1000000)]
+    for _ in range(40 if quick else 1500):
+        m = rng.choice([0, rng.randint(-10 ** 6, 10 ** 6), rng.randint(-10 ** 12, 10 ** 12), rng.randint(-9 * 10 ** 15, 9 * 10 ** 15)])
+        n = rng.choice([0, rng.randint(-999999, 999999), rng.choice([1, 10, 100, 1000, 10 ** 4, 10 ** 5]) * rng.choice([1, -1])])
+        pairs.append((m, n))
+    inp = ''.join(json.dumps({'m': m, 'n': n}) + '\n' for m, n in pairs).encode()
+    forms = [('iso', '* | json | 1ms * m + 1ns * n as d | fields d'),
+             ('debug', '* | json | 1ms * m + 1ns * n as d | concat("", d) as s | fields s')]
+    outs = aglib.run_impl_many([(q, inp, 'json', ()) for _f, q in forms], timeout=60)
+    nss = [m * 10 ** 6 + n for m, n in pairs]
+    mres = aglib.run_model_many([sexp.dumps([Sym('durfmt'), Sym(f), ns]) for f, _q in forms for ns in nss])
+    failures, n_ok = [], 0
+    for fi, ((form, q), o) in enumerate(zip(forms, outs)):
+        lines = [l for l in o['out'].decode('utf8', 'replace').split('\n') if l]
+        if o['rc'] != 0 or len(lines) != len(pairs):
+            failures.append({'kind': 'spec', 'what': 'durations through %s: rc=%r, %d lines for %d rows: %r' % (q, o['rc'], len(lines), len(pairs), o['err'][-200:]),
+                             'payload': {'query': q, 'input_lines': inp.decode().split('\n')[:-1]}})
+            continue
+        for k, ((m, n), ns, line) in enumerate(zip(pairs, nss, lines)):
+            got = list(json.loads(line).values())[0]
+            want = mres[fi * len(pairs) + k]
+            payload = {'query': q, 'input_lines': [json.dumps({'m': m, 'n': n})], 'ns': ns}
+            if form == 'iso':
+                mm = re.match(r'^(-?)P(?:0D|T(\d+)(?:\.(\d{1,9}))?S)$', got)
+                back = None
+                if mm:
+                    back = (int(mm.group(2) or 0) * 10 ** 9 + int((mm.group(3) or '0').ljust(9, '0'))) * (-1 if mm.group(1) else 1)
+                if back != ns:
+                    failures.append({'kind': 'spec', 'what': 'the duration %d ns is written as %r in JSON, which reads back as %r' % (ns, got, back), 'payload': payload})
+                    continue
+            if want != got:
+                failures.append({'kind': 'corr', 'what': 'duration %d ns (%s form): implementation %r, model %r' % (ns, form, got, want), 'payload': payload})
+            else:
+                n_ok += 1
+    return len(pairs) * len(forms), n_ok, failures, {'durations': len(pairs), 'forms': len(forms)}
